@@ -384,7 +384,8 @@ class ExcelInPython:
         range_, sum_range = self._flatten_list(range_), self._flatten_list(sum_range)
         for i in range(len(range_)):
             if i < len(sum_range) and criteria(range_[i]):
-                result += sum_range[i] or 0
+                # only the numbers of the sum range are added, a text or a date there counts as nothing
+                result += sum_range[i] if isinstance(sum_range[i], (int, float)) else 0
 
         return result
 
